@@ -8,17 +8,17 @@ import (
 
 func init() {
 	props["C10"] = &propCheck{
-		lean: []string{"JSight.Props.C10"},
-		exes: []string{},
-		run:  runC10,
-		rule: "generated documents (reference chains between types, enums used inside referenced types, allOf chains of depth >= 2, tags used before definition) x permutations of their top-level blocks (all permutations for <= 5 blocks in the thorough tier, sampled otherwise); non-trivial = accepted document with >= 3 blocks whose permutation differs from the original order; distinct = distinct (document, permutation)",
+		lean:    []string{"JSight.Props.C10"},
+		exes:    []string{},
+		run:     runC10,
+		rule:    "generated documents (reference chains between types, enums used inside referenced types, allOf chains of depth >= 2, tags used before definition) x permutations of their top-level blocks (all permutations for <= 5 blocks in the thorough tier, sampled otherwise); non-trivial = accepted document with >= 3 blocks whose permutation differs from the original order; distinct = distinct (document, permutation)",
 		trusted: []string{"the harness-side renderer; catalog equality is judged on the full JSON with every ordered collection compared as a set of entries"},
 	}
 	props["C20"] = &propCheck{
-		lean: []string{"JSight.Props.C20"},
-		exes: []string{},
-		run:  runC20,
-		rule: "generated accepted documents x one fresh declaration of each kind (type, enum, server, tag, path-bearing method on an unrelated path, JSON-RPC URL) x every insertion point between top-level blocks, and every unreferenced declaration deleted; non-trivial = accepted base document with >= 2 blocks; distinct = distinct (document, change)",
+		lean:    []string{"JSight.Props.C20"},
+		exes:    []string{},
+		run:     runC20,
+		rule:    "generated accepted documents x one fresh declaration of each kind (type, enum, server, tag, path-bearing method on an unrelated path, JSON-RPC URL) x every insertion point between top-level blocks, and every unreferenced declaration deleted; non-trivial = accepted base document with >= 2 blocks; distinct = distinct (document, change)",
 		trusted: []string{"the harness-side renderer"},
 	}
 }
